@@ -486,6 +486,56 @@ def run(ctx):
                f'with a CTE named `sales`, FROM {label} is planned as {got!r} but must be {want!r}: a CTE shadows only the unqualified name; a table of an '
                f'integration that happens to have the same name is a different table', file=QP, line=gis.lineno,
                witness='with sales as (select ...) select * from sales s join int1.sales t on ...')
+    # ---- set operations and the outer query of nested / api / native selects ----------------------------------------------------------------
+    pu = function_named(qp, 'plan_union')
+    pss = function_named(qp, 'plan_sub_select')
+    ctx.need(pu is not None and pss is not None, 'plan_union / plan_sub_select not found')
+    for kind, want_op in (('Union', 'union'), ('Except', 'except'), ('Intersect', 'intersect')):
+        for unique in (True, False):
+            added = []
+            left, right = select_ctor(None, targets=[Obj('Star')]), select_ctor(None, targets=[Obj('Star')])
+            planned = []
+
+            def plan_select(it, q, integration=None):
+                planned.append(q)
+                return Obj('FetchDataframeStep', result=f'R{len(planned)}')
+            stubs = base_stubs()
+            stubs['self.plan_select'] = plan_select
+            stubs['self.plan.add_step'] = lambda it, s2: (added.append(s2), s2)[1]
+            stubs['UnionStep'] = lambda it, **k: Obj('UnionStep', **k)
+            it = Interp(dict(ISA, **{'Union': set(), 'Except': set(), 'Intersect': set()}), stubs)
+            res = it.call_function(pu, [Obj('QueryPlanner'), Obj(kind, left=left, right=right, unique=unique)], {}, _env())
+            rows += 1
+            ok = len(added) == 1 and res is added[0] and added[0].attrs.get('operation') == want_op and added[0].attrs.get('unique') is unique \
+                and added[0].attrs.get('left') == 'R1' and added[0].attrs.get('right') == 'R2' and planned[0] is left and planned[1] is right
+            ctx.ob('C08.set-operation', f'{kind}:unique={unique}', ok,
+                   f'{kind}{"" if unique else " ALL"} must become one UnionStep(operation={want_op!r}, unique={unique}) over the results of its left and right operand in '
+                   f'that order; got {[(a.kind, a.attrs.get("operation"), a.attrs.get("unique"), a.attrs.get("left"), a.attrs.get("right")) for a in added]}',
+                   file=QP, line=pu.lineno, witness=f'select 1 {kind.lower()}{"" if unique else " all"} select 2')
+    for label, kw in cases:
+        q = select_ctor(None, targets=[Obj('Star')], from_table=Obj('Identifier', parts=['int1', 'tbl'], alias=Obj('Identifier', parts=['t'], alias=None)))
+        for k, v in kw.items():
+            setattr(q, k, v)
+        added = []
+        prev = Obj('FetchDataframeStep', result='R-prev')
+        stubs = base_stubs()
+        stubs['self.plan.add_step'] = lambda it, s2: (added.append(s2), s2)[1]
+        stubs['SubSelectStep'] = lambda it, query, dataframe, **k: Obj('SubSelectStep', query=query, dataframe=dataframe, **k)
+        it = Interp(ISA, stubs)
+        res = it.call_function(pss, [Obj('QueryPlanner'), q, prev], {}, _env())
+        rows += 1
+        if label == 'none':
+            ctx.ob('C08.sub-select-reapply', 'none', res is prev and not added, 'SELECT * without clauses over a fetched result: the fetched result is the answer', file=QP, line=pss.lineno)
+            continue
+        ok = len(added) == 1 and res is added[0] and added[0].dataframe == 'R-prev'
+        same = False
+        if ok:
+            q2 = added[0].query
+            same = q2 is not q and q2.from_table is None and added[0].attrs.get('table_name') == 't' and all(
+                _same(getattr(q2, f), getattr(q, f)) for f in ('targets', 'where', 'group_by', 'having', 'order_by', 'limit', 'offset', 'distinct'))
+        ctx.ob('C08.sub-select-reapply', label, ok and same,
+               f'plan_sub_select(): with {label} present the outer query must be applied to the fetched result in one SubSelectStep on a copy that keeps every clause '
+               f'and is addressed by the table alias; steps added: {len(added)}', file=QP, line=pss.lineno)
     ctx.setcount('truth_table_rows', rows)
     ctx.floor('truth_table_rows', 1500)
     ctx.floor('limit_gate_rows', 1000)
